@@ -1487,17 +1487,16 @@ class SetItems(StackSliceOpcode):
             pydict.values.extend(update_dict_values)
             interpreter.stack.append(pydict)
         else:
+            # the target is not a dict display: the pickle VM performs `obj[key] = value` for every
+            # pair, in order (no hashing of keys, no merging of equal keys), so emit exactly that
             dict_name = interpreter.new_variable(pydict)
-            update_dict = ast.Dict(keys=update_dict_keys, values=update_dict_values)
-            interpreter.module_body.append(
-                ast.Expr(
-                    ast.Call(
-                        ast.Attribute(ast.Name(dict_name, ast.Load()), "update"),
-                        [update_dict],
-                        [],
+            for key, value in zip(update_dict_keys, update_dict_values):
+                interpreter.module_body.append(
+                    ast.Assign(
+                        [ast.Subscript(ast.Name(dict_name, ast.Load()), key, ast.Store())],
+                        value,
                     )
                 )
-            )
             interpreter.stack.append(ast.Name(dict_name, ast.Load()))
 
 
